@@ -447,6 +447,10 @@ func (e *MetaCDC) Create(req *request.CreateRequest) (resp *request.CreateRespon
 		defer e.collectionNames.Unlock()
 		e.collectionNames.excludeData[uKey] = lo.Without(e.collectionNames.excludeData[uKey], excludeCollectionNames...)
 		e.collectionNames.data[uKey] = lo.Without(e.collectionNames.data[uKey], newCollectionNames...)
+		if req.ExtraInfo.EnableUserRole {
+			// this request claimed the user-role replication of the target (a second claim is rejected before)
+			e.collectionNames.extraInfos[uKey] = model.ExtraInfo{}
+		}
 	}
 
 	defer func() {
@@ -1423,6 +1427,9 @@ func (e *MetaCDC) delete(taskID string) error {
 	e.collectionNames.Lock()
 	e.collectionNames.excludeData[uKey] = lo.Without(e.collectionNames.excludeData[uKey], info.ExcludeCollections...)
 	e.collectionNames.data[uKey] = lo.Without(e.collectionNames.data[uKey], collectionNames...)
+	if info.ExtraInfo.EnableUserRole {
+		e.collectionNames.extraInfos[uKey] = model.ExtraInfo{}
+	}
 	e.collectionNames.Unlock()
 
 	e.cdcTasks.Lock()
